@@ -142,7 +142,7 @@ package vanguard
 //@ pred confOK(m) = validConf(m) && uf("registeredCodec", m.preferredCodec) == 1
 //@ typeinv methodConfig confOK except (*Transcoder).registerMethod, (*Transcoder).registerService, (*Transcoder).addRule, NewTranscoder
 //@ typeinv routeTarget validTarget except makeTarget, (*routeTrie).addRoute, (*routeTrie).insert
-//@ pred validOp(o) = o != nil && o.bufferPool != nil && validConf(o.methodConf) && o.request != nil
+//@ pred validOp(o) = o != nil && o.bufferPool != nil && validConf(o.methodConf) && o.request != nil && o.request.URL != nil
 //@ |  && o.client.protocol != nil && o.server.protocol != nil && o.client.codec != nil && o.server.codec != nil
 //@ |  && o.contentLen >= -1
 //@ |  && (typeIs(o.client.protocol, restClientProtocol) || typeIs(o.server.protocol, restServerProtocol) ==> o.restTarget != nil)
